@@ -572,7 +572,7 @@ def job_isolated(job: dict) -> dict:
 
 def job_threads(job: dict) -> dict:
     """stage (iv): the calls of `job["calls"]` from N threads on shared objects vs sequentially"""
-    threading.stack_size(256 * 1024 * 1024)
+    threading.stack_size(64 * 1024 * 1024)
     objs, calls, n = job["objects"], job["calls"], job["nthreads"]
     texts = job["texts"]
 
@@ -1159,8 +1159,8 @@ def run(out: Outcome) -> None:
         # the model does not build: stages ii–iv still run (they do not need it)
         pass
     rng = random.Random(seed() * 104729 + 15)
-    pool = grammar_pool(rng, 36 if thorough else 14, 24 if thorough else 10, True)
-    n_hist = 420 if thorough else 90
+    pool = grammar_pool(rng, 60 if thorough else 16, 40 if thorough else 12, True)
+    n_hist = 1600 if thorough else 160
     hists = [gen_history(random.Random(rng.randrange(1 << 30)), pool, rng.choice([8, 12, 16, 24] if thorough else [8, 12, 16])) for _ in range(n_hist)]
 
     # ---- stages ii + iii: every history in its own fresh process, monitored
@@ -1223,7 +1223,7 @@ def run(out: Outcome) -> None:
             break
 
     # ---- stage iv: threads
-    tjobs = [gen_thread_job(random.Random(rng.randrange(1 << 30)), pool, thorough, i) for i in range(96 if thorough else 24)]
+    tjobs = [gen_thread_job(random.Random(rng.randrange(1 << 30)), pool, thorough, i) for i in range(256 if thorough else 32)]
     tres = run_jobs(tjobs)
     tcalls = sum(r.get("calls", 0) for r in tres)
     tnontrivial = sum(r.get("nontrivial", 0) for r in tres)
